@@ -71,6 +71,7 @@ def to_record(label, src, dst):
         o, k, cls = args; inn = {"o": o, "k": k, "cls": cls}
         so = src["obj"][str(o)] if isinstance(src["obj"], dict) else src["obj"][o]
         out["sigfor"] = so["id"] if label["ret"] == 1 else -1
+        out["sigzero"] = 0 if label["ret"] == 1 else 1      # no signature bytes in the output object unless the call succeeded
     else:
         raise Infra("unknown action " + a)
     return {"e": "Mn" + a, "in": inn, "out": out}
